@@ -65,6 +65,8 @@ pub fn fmt_of(c: u32) -> TileFormat {
 /// ids from here on denote the 1-byte payload `[id - ONE_BYTE_BASE]` (an "empty-ish" tile that is not a
 /// vector tile; only used where nothing has to decode the payload)
 pub const ONE_BYTE_BASE: u64 = 1 << 40;
+/// the empty (0 bytes) payload
+pub const EMPTY_ID: u64 = ONE_BYTE_BASE + 256;
 
 /// raw size the single-feature tile of this id is padded to exactly: both sides of the 1000-byte
 /// de-duplication threshold of the versatiles writer
@@ -184,7 +186,9 @@ pub fn make_vt(ids: &[u64], layer: &str) -> Blob {
 
 /// the raw payload of a stored tile
 pub fn make_blob(id: u64) -> Blob {
-	if id >= ONE_BYTE_BASE {
+	if id == EMPTY_ID {
+		Blob::new_empty()
+	} else if id >= ONE_BYTE_BASE {
 		Blob::from(vec![(id - ONE_BYTE_BASE) as u8])
 	} else {
 		make_vt(&[id], "L")
@@ -213,6 +217,9 @@ impl Ident {
 fn ident_raw(blob: &Blob, comp: TileCompression) -> Option<String> {
 	let r = catch(|| -> Option<String> {
 		let raw = Blob::from(indep_decompress(blob.as_slice(), comp)?);
+		if raw.len() == 0 {
+			return Some(EMPTY_ID.to_string());
+		}
 		if raw.len() == 1 {
 			return Some((ONE_BYTE_BASE + raw.as_slice()[0] as u64).to_string());
 		}
@@ -240,6 +247,48 @@ pub struct SrcSpec {
 	pub comp: u32,
 	pub kind: String,
 	pub tiles: BTreeMap<Key, u64>,
+	/// fault injection: coordinates whose `get_tile_data` returns `Err` (the source is then wrapped in
+	/// `FaultySource`, which serves boxes through the trait's default stream)
+	pub fail: Vec<Key>,
+}
+
+/// A reader whose lookup fails for some coordinates (I/O error, vanished file, lost connection …) while all
+/// other coordinates keep working.  `get_bbox_tile_stream` is the trait's default implementation.
+#[derive(Debug)]
+pub struct FaultySource {
+	pub inner: Box<dyn TilesReaderTrait>,
+	pub fail: std::collections::HashSet<Key>,
+}
+#[async_trait::async_trait]
+impl TilesReaderTrait for FaultySource {
+	fn get_source_name(&self) -> &str {
+		self.inner.get_source_name()
+	}
+	fn get_container_name(&self) -> &str {
+		"faulty"
+	}
+	fn get_parameters(&self) -> &TilesReaderParameters {
+		self.inner.get_parameters()
+	}
+	fn override_compression(&mut self, c: TileCompression) {
+		self.inner.override_compression(c)
+	}
+	fn get_tilejson(&self) -> &versatiles_core::tilejson::TileJSON {
+		self.inner.get_tilejson()
+	}
+	async fn get_tile_data(&self, coord: &TileCoord3) -> Result<Option<Blob>> {
+		if self.fail.contains(&(coord.z, coord.x, coord.y)) {
+			anyhow::bail!("injected fault at {coord:?}")
+		}
+		self.inner.get_tile_data(coord).await
+	}
+}
+pub fn wrap_faulty(r: Box<dyn TilesReaderTrait>, fail: &[Key]) -> Box<dyn TilesReaderTrait> {
+	if fail.is_empty() {
+		r
+	} else {
+		Box::new(FaultySource { inner: r, fail: fail.iter().copied().collect() })
+	}
 }
 
 pub fn show_cover(p: &TileBBoxPyramid) -> String {
@@ -282,7 +331,16 @@ pub fn parse_env(s: &str) -> Vec<SrcSpec> {
 					tiles.insert((v[2] as u8, v[0] as u32, v[1] as u32), v[3]);
 				}
 			}
-			SrcSpec { fmt: f[0].parse().unwrap(), comp: f[1].parse().unwrap(), kind: f.get(4).unwrap_or(&"mem").to_string(), tiles }
+			let mut fail = vec![];
+			if let Some(fs) = f.get(5) {
+				if *fs != "-" && !fs.is_empty() {
+					for t in fs.split('_') {
+						let v: Vec<u32> = t.split(',').map(|x| x.parse().unwrap()).collect();
+						fail.push((v[2] as u8, v[0], v[1]));
+					}
+				}
+			}
+			SrcSpec { fmt: f[0].parse().unwrap(), comp: f[1].parse().unwrap(), kind: f.get(4).unwrap_or(&"mem").to_string(), tiles, fail }
 		})
 		.collect()
 }
@@ -364,7 +422,19 @@ impl World {
 			.specs
 			.iter()
 			.enumerate()
-			.map(|(i, s)| format!("{};{};{};{};{}", s.fmt, s.comp, self.covers[i], show_tiles_spec(&s.tiles), s.kind))
+			.map(|(i, s)| {
+				// a zero-length stored payload reads back as "no tile" from versatiles and pmtiles containers (open
+				// known finding C04-empty-tile-dropped, owned by C04): the model leaf is what the reader serves
+				let mut tiles = s.tiles.clone();
+				if s.comp == 0 && (s.kind == "versatiles" || s.kind == "pmtiles") {
+					tiles.retain(|_, v| *v != EMPTY_ID);
+				}
+				let mut e = format!("{};{};{};{};{}", s.fmt, s.comp, self.covers[i], show_tiles_spec(&tiles), s.kind);
+				if !s.fail.is_empty() {
+					e += &format!(";{}", s.fail.iter().map(|(z, x, y)| format!("{x},{y},{z}")).collect::<Vec<_>>().join("_"));
+				}
+				e
+			})
 			.collect::<Vec<_>>()
 			.join("!")
 	}
@@ -373,17 +443,23 @@ impl World {
 	}
 	/// a fresh real reader of source `i`
 	pub async fn reader(&self, i: usize) -> Result<Box<dyn TilesReaderTrait>> {
-		match &self.paths[i] {
-			Some(p) => get_reader(p.to_str().unwrap()).await,
-			None => Ok(Box::new(self.mem[i].clone())),
-		}
+		let r: Box<dyn TilesReaderTrait> = match &self.paths[i] {
+			Some(p) => get_reader(p.to_str().unwrap()).await?,
+			None => Box::new(self.mem[i].clone()),
+		};
+		Ok(wrap_faulty(r, &self.specs[i].fail))
+	}
+	pub fn has_faults(&self) -> bool {
+		self.specs.iter().any(|s| !s.fail.is_empty())
 	}
 	pub fn factory(&self) -> PipelineFactory {
 		let mem: Arc<Vec<MemSource>> = Arc::new(self.mem.clone());
 		let paths: Arc<Vec<Option<PathBuf>>> = Arc::new(self.paths.clone());
+		let fails: Arc<Vec<Vec<Key>>> = Arc::new(self.specs.iter().map(|s| s.fail.clone()).collect());
 		let cb = Box::new(move |filename: String| -> BoxFuture<'static, Result<Box<dyn TilesReaderTrait>>> {
 			let mem = mem.clone();
 			let paths = paths.clone();
+			let fails = fails.clone();
 			Box::pin(async move {
 				let base = Path::new(&filename).file_name().unwrap().to_str().unwrap().to_string();
 				let i: usize = base.trim_start_matches('s').parse()?;
@@ -394,10 +470,11 @@ impl World {
 				for _ in 0..(mem.len() - i) * 3 {
 					tokio::task::yield_now().await;
 				}
-				match &paths[i] {
-					Some(p) => get_reader(p.to_str().unwrap()).await,
-					None => Ok(Box::new(mem[i].clone()) as Box<dyn TilesReaderTrait>),
-				}
+				let r = match &paths[i] {
+					Some(p) => get_reader(p.to_str().unwrap()).await?,
+					None => Box::new(mem[i].clone()) as Box<dyn TilesReaderTrait>,
+				};
+				Ok(wrap_faulty(r, &fails[i]))
 			})
 		});
 		PipelineFactory::default(&self.dir, cb)
@@ -531,14 +608,21 @@ pub struct BoxEval {
 	pub stream: Result<Vec<(TileCoord3, Blob)>, String>, // Err = panic message
 	pub failure: Option<(String, String)>,                // (kind, human text) of the direct oracle
 	pub n_lookup_hits: usize,
+	pub n_lookup_errs: usize,
 	pub n_coords: u64,
 }
 
 /// real stream (collected, under catch_unwind, on the multi-thread runtime) versus real lookups over
 /// `iter_coords`: same set, identical bytes, each once, nothing outside.
 pub fn eval_box(rt: &tokio::runtime::Runtime, src: &Real, b: &TileBBox) -> BoxEval {
+	eval_box_ex(rt, src, b, false)
+}
+
+/// `allow_err`: the source is known to fail for some coordinates (fault injection); a failing lookup then
+/// counts as "no tile": the stream must deliver exactly the tiles whose lookup is `Ok(Some)`
+pub fn eval_box_ex(rt: &tokio::runtime::Runtime, src: &Real, b: &TileBBox, allow_err: bool) -> BoxEval {
 	let stream = catch(|| rt.block_on(async { src.stream(b.clone()).await }));
-	let mut ev = BoxEval { stream, failure: None, n_lookup_hits: 0, n_coords: 0 };
+	let mut ev = BoxEval { stream, failure: None, n_lookup_hits: 0, n_lookup_errs: 0, n_coords: 0 };
 	let coords: Vec<TileCoord3> = if b.is_empty() { vec![] } else { b.iter_coords().collect() };
 	ev.n_coords = coords.len() as u64;
 	let mut expect: BTreeMap<(u32, u32, u8), Blob> = BTreeMap::new();
@@ -548,6 +632,9 @@ pub fn eval_box(rt: &tokio::runtime::Runtime, src: &Real, b: &TileBBox) -> BoxEv
 				expect.insert((c.x, c.y, c.z), blob);
 			}
 			Ok(Ok(None)) => {}
+			Ok(Err(_)) if allow_err => {
+				ev.n_lookup_errs += 1;
+			}
 			Ok(Err(e)) => {
 				ev.failure = Some(("lookup_err".into(), format!("lookup {c:?} failed: {e:#}")));
 				return ev;
@@ -678,7 +765,8 @@ pub fn run_in_world(rt: &tokio::runtime::Runtime, out: &mut Out, id: &mut Ident,
 		let src = Real::R(Box::new(conv));
 		for bs in args.split(';') {
 			let b = parse_box(bs);
-			let ev = eval_box(rt, &src, &b);
+			let ev = eval_box_ex(rt, &src, &b, w.has_faults());
+			out.count_n("lookups_failing_inside_a_box", ev.n_lookup_errs as u64);
 			let nt = nontrivial_box(&b, &src.params().bbox_pyramid);
 			out.eval(&format!("{prop} X {rpn} {env} {bs}"), nt);
 			out.count(&format!("converter_flip{}_swap{}", flip as u8, swap as u8));
@@ -743,8 +831,9 @@ pub fn run_in_world(rt: &tokio::runtime::Runtime, out: &mut Out, id: &mut Ident,
 			let mut any_nt = false;
 			for bs in args.split(';') {
 				let b = parse_box(bs);
-				let ev = eval_box(rt, &src, &b);
-				let nt = nontrivial_box(&b, &src.params().bbox_pyramid);
+				let ev = eval_box_ex(rt, &src, &b, w.has_faults());
+				out.count_n("lookups_failing_inside_a_box", ev.n_lookup_errs as u64);
+				let nt = nontrivial_box(&b, &src.params().bbox_pyramid) || ev.n_lookup_errs > 0;
 				any_nt |= nt;
 				out.eval(&format!("{prop} S {rpn} {env} {bs}"), nt);
 				out.count(if b.is_empty() { "box_empty" } else if ev.n_lookup_hits == 0 { "box_no_tiles" } else if (ev.n_lookup_hits as u64) < ev.n_coords { "box_partial" } else { "box_full" });
@@ -968,7 +1057,8 @@ fn next_id_with_target(next: &mut u64) -> u64 {
 ///          blocks and levels); 1: all tiles identical (ocean); 2: runs of 2-6 adjacent copies;
 /// 3: three payloads scattered over all coordinates; 4: copies of payloads sized 999/1000/1001 bytes
 /// (both sides of the versatiles writer's de-duplication threshold), adjacent and scattered;
-/// 5 (only where nothing decodes the payload): 1-byte payloads, many copies.
+/// 5 (only where nothing decodes the payload): 1-byte payloads, many copies; 6 (same restriction): empty
+/// (0 bytes) payloads mixed with a 1-byte and a normal one.
 pub fn assign_ids_style(rng: &mut Rng, coords: &[Key], next: &mut u64, style: u64) -> BTreeMap<Key, u64> {
 	let mut tiles = BTreeMap::new();
 	let mut sorted: Vec<Key> = coords.to_vec();
@@ -1005,6 +1095,12 @@ pub fn assign_ids_style(rng: &mut Rng, coords: &[Key], next: &mut u64, style: u6
 					last = *rng.pick(&pool);
 				}
 				tiles.insert(k, last);
+			}
+		}
+		6 => {
+			let pool = [EMPTY_ID, EMPTY_ID, ONE_BYTE_BASE + 7, next_id(next)];
+			for k in sorted {
+				tiles.insert(k, *rng.pick(&pool));
 			}
 		}
 		5 => {
@@ -1064,7 +1160,8 @@ pub fn count_dups(out: &mut Out, tiles: &BTreeMap<Key, u64>) {
 	out.count_n("duplicate_payload_copies_within_one_block", same_block);
 	out.count_n("duplicate_payload_copies_across_blocks_or_levels", cross_block);
 	out.count_n("payloads_sized_999_1000_1001", tiles.values().filter(|v| **v < ONE_BYTE_BASE && size_target(**v).is_some()).count() as u64);
-	out.count_n("payloads_1_byte", tiles.values().filter(|v| **v >= ONE_BYTE_BASE).count() as u64);
+	out.count_n("payloads_1_byte", tiles.values().filter(|v| **v >= ONE_BYTE_BASE && **v != EMPTY_ID).count() as u64);
+	out.count_n("payloads_empty_0_bytes", tiles.values().filter(|v| **v == EMPTY_ID).count() as u64);
 }
 
 // ---------------------------------------------------------------------------------------------
@@ -1073,7 +1170,7 @@ pub fn count_dups(out: &mut Out, tiles: &BTreeMap<Key, u64>) {
 /// `stream` = "C02v" | "C02m", `op` = "S" (args: boxes) | "G" (args: coordinates); source 0 of the world
 pub fn reader_line(rt: &tokio::runtime::Runtime, out: &mut Out, id: &mut Ident, w: &World, stream: &str, op: &str, args: &str) {
 	use crate::indep_formats::{brotli_d, parse_versatiles};
-	if !w.usable() || w.paths[0].is_none() {
+	if !w.usable() || w.paths[0].is_none() || w.has_faults() {
 		return;
 	}
 	let path = w.paths[0].clone().unwrap();
